@@ -45,6 +45,9 @@ func signalScenarios() []binScenario {
 			Args: []string{"--import-format", "nosuch"}, SQL: "SELECT 1;\n"},
 		{Name: "preloadcreate", Tables: map[string]string{"f1.csv": rowsCSV(3, 0)}, Preload: "CREATE TABLE `repo/f2.csv` (n);\nINSERT INTO `repo/f2.csv` VALUES (0);\n",
 			Args: []string{"--write-encoding", "nosuch"}, SQL: "SELECT 1;\n"},
+		// two names that differ in letter case only: the second handler of "one" file is refused - and released, nothing else
+		{Name: "casecreate", Tables: map[string]string{"f1.csv": rowsCSV(3, 0)},
+			SQL: "CREATE TABLE `F1.csv` AS SELECT * FROM `f1.csv`;\n"},
 		{Name: "holder", Tables: map[string]string{"f1.csv": rowsCSV(3, 0)}, Holder: true,
 			SQL: "SELECT COUNT(*) FROM `f1.csv`;\n"},
 		{Name: "holderupd", Tables: map[string]string{"f1.csv": rowsCSV(3, 0), "f2.csv": rowsCSV(3, 0)}, Holder: true,
